@@ -3,7 +3,8 @@
    known finding F6 (the record AT from is never emitted): C09_handoff_full_refuted / C09_handoff_partial. *)
 From Coq Require Import List ZArith Bool.
 From FB Require Import Model.Tracker Model.Recovery Judge.E4
-  Proofs.RecoveryProofs Proofs.RecoveryOwnership Proofs.RecoveryTruncation Proofs.RecoveryCover Proofs.RecoveryCoverFinal.
+  Proofs.RecoveryProofs Proofs.RecoveryOwnership Proofs.RecoveryTruncation Proofs.RecoveryCover Proofs.RecoveryCoverFinal
+  Proofs.RecoverySpecSound.
 Import ListNotations.
 Open Scope Z_scope.
 
@@ -78,7 +79,19 @@ Theorem C09_nothing_outside : forall cfg s p o e,
   e = (p, o, true) /\ exists f t, pget p (active s) = Some (f, t) /\ f < o <= t.
 Proof. exact rec_step_emits. Qed.
 
+(* SOUNDNESS OF THE DECISION PROCEDURE spec_c09 FOR THE MODEL - partial: clauses 1 (refresh exactness: the spec's closed
+   form expected_active / re-assignment iff partitions or a to changed, decided after every Refresh, Revoke and
+   single-record completion), 4 (nothing recovered between a revocation / stop and the next assignment) and 5 (owned set
+   follows assignment and revocation) never fail on the model's own observations, for every configuration and op list.
+   Not proved sound (only exercised): clauses 2/3 (hand-off and progress coverage through cover_fails under the watched
+   guard - the model-level statement is C09_handoff_partial). *)
+Theorem C09_spec_sound_partial : forall cfg ops,
+  let l := model_l cfg init_state ops in
+  scan c09_refresh ops obs0 l = [] /\ c09_revoked ops l false = [] /\ scan c09_owned ops obs0 l = [].
+Proof. exact spec_c09_clauses_145_sound. Qed.
+
 Print Assumptions C09_refresh_exact.
+Print Assumptions C09_spec_sound_partial.
 Print Assumptions C09_unchanged_means_same.
 Print Assumptions C09_revoke_clears.
 Print Assumptions C09_revoke_stops.
